@@ -658,6 +658,7 @@ func runC06Malformed(c *CaseCtx, r *rand.Rand) (res CaseResult) {
 	genErr := errors.New("generator failure")
 	var bad am.Arg
 	wantErr := false
+	selectiveGen := false // the generator only fails for one type of value
 	switch kind {
 	case 0:
 		bad, wantErr = nil, true
@@ -673,6 +674,19 @@ func runC06Malformed(c *CaseCtx, r *rand.Rand) (res CaseResult) {
 		bad, wantErr = am.Converter(nil), true
 	case 6:
 		bad, wantErr = am.ConverterGen(func(am.Value) (*am.Func, error) { return nil, genErr }), true
+		if c.Idx%2 == 0 && len(s.Inputs) > 0 {
+			// the generator fails for the values of ONE type only (and has
+			// nothing to offer for the others): still a failed resolution
+			failT := types[s.Inputs[0].Type]
+			bad = am.ConverterGen(func(v am.Value) (*am.Func, error) {
+				if v.Type == failT {
+					return nil, genErr
+				}
+				return nil, nil
+			})
+			res.obs("malformed.gen-error-for-one-type", 1)
+			selectiveGen = true
+		}
 	case 9:
 		bad = am.ConverterGen(nil, nil)
 	case 10:
@@ -793,7 +807,9 @@ func runC06Malformed(c *CaseCtx, r *rand.Rand) (res CaseResult) {
 			if o4.Class == ClsPanic {
 				res.violate("C06", "panic/malformed-default-"+kinds[kind], "Call with a malformed default option panicked: "+o4.Panic, nil)
 			}
-			if wantErr && o4.Err == nil {
+			if wantErr && o4.Err == nil && !selectiveGen {
+				// (the selective generator has nothing to object to in this
+				// little call unless its type happens to be T0)
 				res.violate("C06", "malformed-accepted/default-"+kinds[kind], "malformed default option was neither rejected at construction nor at Call", nil)
 			}
 		}
